@@ -671,6 +671,141 @@ def random_histories(run, rng, count, maxlen, chunk=6, view_mix=True):
                 h['ops'].append(gen_op(ch, rng, run, len(h['docs'])))
     return [(h['docs'], h['ops'], h['view']) for h in hist]
 
+# ------------------------------------------------------------------ histories with Element::normalize (op NZ)
+# Own generator and own random stream (the streams of random_histories / histories15 are untouched): the histories first
+# produce adjacent Text nodes -- split_text, fresh Text nodes appended / inserted next to a Text node, a Text node moved
+# next to another, removal of the node between two Text nodes, "]]" in front of ">", Text nodes without characters,
+# nested and detached elements -- and call normalize in between, in both views.
+NZ_DOCS = ['<r>a<b>c</b>d</r>',
+           '<r>ab<x/>cd<y i="1"><z>e<!--k-->f</z>g</y>h<![CDATA[i]]>j&amp;k</r>',
+           '<r><a>s<b>t<c>u</c>v</b>w</a></r>',
+           '<!DOCTYPE r [<!ENTITY e "v">]><r k="v">x]]<!--m-->&gt;&e;y<?p q?>z</r>',
+           '<r/>']
+NZ_TEXTS = ['a', '', ']]', '>', ']', ']>', 'x]]', '>y', 'b c', '', ']]', '>']
+
+def gen_op_nz(ch, rng, run):
+    """one op of a normalize history, aimed at the state of the chooser's dump"""
+    N = ch.rec.nodes
+    els = [h for h in ch.hs if N[h].kind == 'el']
+    txs = [h for h in ch.hs if N[h].kind == 'tx' and N[h].p in N and N[N[h].p].kind == 'el']
+    det = [h for h in ch.hs if N[h].p is None and N[h].kind in ('tx', 'el', 'cm', 'cd', 'pi', 'er')]
+    det_tx = [h for h in det if N[h].kind == 'tx']
+    doc = ch.any(('doc',))
+    x = rng.random()
+    if x < 0.20 and els:
+        if rng.random() < 0.08:
+            run.count('nz:any-receiver'); return ('NZ', ch.any())
+        # mostly an element that has adjacent Text children, or one of its ancestors
+        adj = [e for e in els if any(a in N and b in N and N[a].kind == 'tx' and N[b].kind == 'tx' for a, b in zip(N[e].c, N[e].c[1:]))]
+        if adj and rng.random() < 0.7:
+            e = rng.choice(adj)
+            up = [a for a in ancestors(ch.rec, e) if a in N and N[a].kind == 'el']
+            return ('NZ', rng.choice(up) if up and rng.random() < 0.4 else e)
+        return ('NZ', rng.choice(els))
+    if x < 0.36 and txs:
+        t = rng.choice(txs)
+        n = len(dec(N[t].data)) if N[t].data not in ('~', '!') else 0
+        return ('ST', t, rng.choice([0, 1, n, max(0, n - 1), 2]))
+    if x < 0.50:
+        return ('CT', doc, rng.choice(NZ_TEXTS))
+    if x < 0.56:
+        k = rng.choice(['CE', 'CC', 'CD'])
+        return (k, doc, 'e' if k == 'CE' else 'c')
+    if x < 0.80 and det and els:
+        a = rng.choice(det_tx) if det_tx and rng.random() < 0.7 else rng.choice(det)
+        r = rng.choice(els)
+        kids = [y for y in N[r].c if y != '?']
+        tk = [y for y in kids if y in N and N[y].kind == 'tx']
+        if kids and rng.random() < 0.5:
+            return ('IB', r, a, rng.choice(tk) if tk and rng.random() < 0.7 else rng.choice(kids))
+        return ('AC', r, a)
+    if x < 0.86 and len(txs) > 1:
+        t, o = rng.sample(txs, 2)
+        run.count('nz:move-text')
+        return ('IB', N[o].p, t, o)
+    if x < 0.93 and els:
+        # the node between two Text nodes, if there is one
+        cands = []
+        for e in els:
+            c = [y for y in N[e].c if y in N]
+            for i in range(1, len(c) - 1):
+                if N[c[i - 1]].kind == 'tx' and N[c[i + 1]].kind == 'tx' and N[c[i]].kind != 'tx':
+                    cands.append((e, c[i]))
+        if cands:
+            run.count('nz:remove-between')
+            e, y = rng.choice(cands)
+            return ('RM', e, y)
+        e = rng.choice(els)
+        if N[e].c:
+            return ('RM', e, rng.choice([y for y in N[e].c if y != '?'] or [e]))
+    if txs or det_tx:
+        return (rng.choice(['AD', 'SD']), rng.choice(txs + det_tx), rng.choice(NZ_TEXTS))
+    return ('CT', doc, rng.choice(NZ_TEXTS))
+
+NZ_FIXED = [
+    # "]]" in front of ">" stays apart; the refused node becomes the new `previous`
+    (['<r>a<b>c</b>d</r>'], [('ST', 2, 0), ('CT', 0, ']]'), ('CT', 0, '>'), ('AC', 3, 7), ('AC', 3, 8), ('CT', 0, 'zz'), ('AC', 3, 9), ('ST', 5, 1),
+                             ('NZ', 1), ('NZ', 1), ('NZ', 2), ('NZ', 0), ('NZ', 3)]),
+    # three-way split, normalize of the inner element only, then of the outer one
+    (['<r>abc<x>def</x>ghi</r>'], [('ST', 2, 1), ('ST', 6, 1), ('ST', 4, 2), ('NZ', 3), ('NZ', 1), ('NZ', 1)]),
+    # a detached subtree; Text nodes without characters; comment / CDATA / reference between Text nodes
+    (['<r/>'], [('CE', 0, 'd'), ('CT', 0, ''), ('CT', 0, ''), ('CT', 0, 'x'), ('AC', 2, 3), ('AC', 2, 4), ('AC', 2, 5), ('NZ', 2), ('NZ', 1),
+                ('AC', 1, 2), ('NZ', 1)]),
+    (['<r>a<!--c-->b<![CDATA[d]]>e&amp;f</r>'], [('NZ', 1), ('RM', 1, 3), ('NZ', 1), ('RM', 1, 5), ('NZ', 1), ('RM', 1, 7), ('NZ', 1)]),
+    # "]" "]" ">" : the first two merge, the third is refused
+    (['<r/>'], [('CT', 0, ']'), ('CT', 0, ']'), ('CT', 0, '>'), ('CT', 0, 'x'), ('AC', 1, 2), ('AC', 1, 3), ('AC', 1, 4), ('AC', 1, 5), ('NZ', 1), ('NZ', 1)]),
+    # a Text node that already holds "]]>" (made in an attribute value, moved into content): nothing can be appended to it
+    (['<r a="x">t</r>'], [('SV', 2, ']]>'), ('CT', 0, 'y'), ('AC', 1, 5), ('AC', 1, 6), ('NZ', 1)]),
+]
+
+def normalize_histories(rng, count, maxlen, chunk=5):
+    """-> (list of (docs, ops, view), histogram): the fixed histories in both views + `count` seeded histories grown in
+    lock-step with the implementation"""
+    st = Stats()
+    out = [(d, o, v) for d, o in NZ_FIXED for v in ('r', 'm')]
+    hist = [{'docs': [rng.choice(NZ_DOCS)], 'ops': [], 'len': rng.randint(3, maxlen), 'view': 'm' if rng.random() < 0.25 else 'r'} for _ in range(count)]
+    for rnd in range((maxlen + chunk - 1) // chunk + 1):
+        live = [h for h in hist if len(h['ops']) < h['len']]
+        if not live: break
+        lines = run_impl([mkcase(h['docs'], h['ops'], '%s!%d' % (h['view'], len(h['ops']))) for h in live])
+        for h, line in zip(live, lines):
+            recs = parse_line(line)
+            if not recs or recs[-1].bad or recs[-1].skipped:
+                h['len'] = len(h['ops']); continue
+            ch = Chooser(recs[-1], rng, {x: 0 for x in recs[-1].nodes})
+            for _ in range(min(chunk, h['len'] - len(h['ops']))):
+                h['ops'].append(gen_op_nz(ch, rng, st))
+    return out + [(h['docs'], h['ops'], h['view']) for h in hist], st.hist
+
+def normalize_stats(cases, impl_lines, H):
+    """evidence: how many normalize calls ran, how many of them merged something, how many left a Text pair apart"""
+    for (docs, ops, view), il in zip(cases, impl_lines):
+        recs = il.split(' | ')
+        for i in range(1, len(recs)):
+            if i - 1 < len(ops) and ops[i - 1][0] == 'NZ':
+                head, _, dump = recs[i].partition(' # ')
+                before = recs[i - 1].partition(' # ')[2]
+                res = head.split(' ')[0]
+                H['normalize:calls'] = H.get('normalize:calls', 0) + 1
+                H['normalize:view-' + view[0]] = H.get('normalize:view-' + view[0], 0) + 1
+                if res != 'ok':
+                    H['normalize:' + res] = H.get('normalize:' + res, 0) + 1
+                    continue
+                if dump == '-' or before == '-':
+                    continue
+                if dump != before:
+                    H['normalize:merged-something'] = H.get('normalize:merged-something', 0) + 1
+                else:
+                    H['normalize:nothing-to-merge'] = H.get('normalize:nothing-to-merge', 0) + 1
+                r = Rec(recs[i])
+                apart = 0
+                for n in r.nodes.values():
+                    if n.kind == 'el':
+                        c = [y for y in n.c if y in r.nodes]
+                        apart += sum(1 for a, b in zip(c, c[1:]) if r.nodes[a].kind == 'tx' and r.nodes[b].kind == 'tx')
+                if apart:
+                    H['normalize:adjacent-text-left-in-document'] = H.get('normalize:adjacent-text-left-in-document', 0) + 1
+
 # ------------------------------------------------------------------ matrix and exhaustive short histories
 RICH = '<!DOCTYPE r [<!ENTITY e "v">]><!--h--><r k="v"><a x="1"><b>t<i/></b>s</a><!--m--><c/>w<![CDATA[d]]><?pi z?>&e;&#65;</r><!--f-->'
 RICH2 = '<q><z/>y</q>'
@@ -827,7 +962,7 @@ def source_hash():
     h = hashlib.sha256()
     for f in ('checks/domlib.py', 'harness/src/domains/dom.rs', 'ocaml/domains/dom/dom.ml', 'coq/theories/Model/Store.v',
               'coq/theories/Model/DomOps.v', 'coq/theories/Model/StoreCheck.v', 'coq/theories/Model/StoreView.v',
-              'coq/theories/Model/XDoc.v', 'harness/src/domains/xpath.rs'):
+              'coq/theories/Model/XDoc.v', 'harness/src/domains/xpath.rs', 'coq/theories/Model/DomNormalize.v'):
         try: h.update(open(os.path.join(lib.VERIF, f), 'rb').read())
         except OSError: pass
     return h.hexdigest()[:12]
@@ -965,6 +1100,16 @@ def campaign(run, log=lib.log):
     for d, o, v in H:
         summary['hist']['len:%d' % (10 * (len(o) // 10))] = summary['hist'].get('len:%d' % (10 * (len(o) // 10)), 0) + 1
     summary['times']['random'] = round(time.time() - t0, 1); t0 = time.time()
+    # (c') histories with Element::normalize (own random stream)
+    NH, nhist = normalize_histories(random.Random('normalize-%d' % run.seed), 1500 if thorough else 250, 24)
+    for k, v in nhist.items(): summary['hist'][k] = summary['hist'].get(k, 0) + v
+    lines = [mkcase(*c) for c in NH]
+    il = run_impl(lines); ml = run_model(lines, il)
+    analyse(NH, il, ml, summary, memo, 'normalize')
+    normalize_stats(NH, il, summary['hist'])
+    for d, o, v in NH[:1] + NH[len(NZ_FIXED) * 2:len(NZ_FIXED) * 2 + 2]:
+        summary['samples'].append({'kind': 'normalize history', 'documents': d, 'view': v, 'ops': [show_op(x) for x in o]})
+    summary['times']['normalize'] = round(time.time() - t0, 1); t0 = time.time()
     # (d) the same histories with XPath query batches, implementation only, merged view, no dumps
     QH = [(d, with_queries(o, rng), 'm!9999') for d, o, v in H[:(len(H) if thorough else 300)]]
     QH += [(d, with_queries(o[:12], rng, dense=True), 'm!9999') for d, o, v in H[:(len(H) if thorough else 400)]]
